@@ -7,3 +7,7 @@ add("C01", "Hypothesis-generated inputs against a dense reference evaluation of 
     "Random symmetric patterns (incl. disconnected, isolated rows, empty), positive S/h/V over six decades, energies incl. pairs at and beyond the cap, all storage forms the package produces; every entry compared with a dense numpy evaluation of the stated capped formula (rtol 1e-10), zero row sums, detailed balance in log form, invariance under energy shift, linearity in D, storage-form independence. Exploration: thousands (quick) to 160 000 (thorough) generated inputs, n <= 14.",
     "Trusted: numpy/scipy.sparse constructors, the 10-line dense reference. T is kept high enough that the capped exponent stays inside float64 (the property does not claim finite results beyond).",
     "DESIGN.md section 5, C01")
+add("C13", "Hypothesis rule-based state machine + exhaustive enumeration of short histories against an explicit lumping model; metamorphic replays",
+    "Every history of up to 3 merge/delete operations on <=3 (thorough: 4) cells over all set partitions and deletion subsets, plus thousands of generated histories (n<=9, up to 12/30 steps, overlapping/redundant/merged/deleted members) run on a dense and a csr matrix in lock-step next to an explicit model (disjoint sorted groups + block sums of the original matrix); index list, every entry, row sums, symmetry, dense==sparse, one-shot==step-wise, order/redundancy independence checked after every step; cut_and_merge checked for the four limit combinations. Exploration within those bounds.",
+    "Trusted: numpy, the 60-line Model class. Both readings of 'link through a deleted cell' are accepted.",
+    "DESIGN.md section 5, C13")
